@@ -132,3 +132,50 @@ func VC10_Pool() {
 	}
 	rt.Reach("end")
 }
+
+// VC10_Burst: a first datagram (malformed or well-formed) is processed completely, then a burst
+// of well-formed datagrams arrives back to back while the parse loop lags behind the receive
+// loop: every buffer must have exactly one owner at a time, so each delivered message is the
+// datagram it came from.
+func VC10_Burst() {
+	L, K := rt.Param("L"), rt.Param("K")
+	fakenet.Reset()
+	rt.RaceMonitor(true)
+	u, err := NewUDPServerTransport(wListenAddr, 5060, true, NewSelfLearnRoute())
+	rt.Assert(err == nil, "transport created")
+	if err != nil {
+		return
+	}
+	h := &vHandler{}
+	rt.Assert(u.Start(h) == nil, "transport started")
+	rt.Quiesce()
+	sock := fakenet.UDPConns[0]
+	first := "OPTIONS sip:a@b SIP/2.0\r\nCall-ID: warmup\r\nContent-Length: 0\r\n\r\n"
+	switch rt.Choice("first", 4) {
+	case 1:
+		first = "OPTIONS sip:a@b SIP/2.0\r\nCall-ID: warmup\r\nContent-Length: 5\r\n\r\nab" // over-declared
+	case 2:
+		first = "OPTIONS sip:a@b SIP/2.0\r\nCall-ID: war" // cut inside the header section
+	case 3:
+		first = "\r\n\r\n" // keep-alive
+	}
+	sock.Deliver("10.0.2.9:5060", []byte(first))
+	rt.Quiesce()
+	before := len(h.got)
+	var ids []string
+	for i := 0; i < K; i++ {
+		id := "b" + itoa(i) + rt.Str("id", "alnum", 1, L)
+		ids = append(ids, id)
+		sock.Deliver("10.0.2."+itoa(i+1)+":5060", []byte("OPTIONS sip:a@b SIP/2.0\r\nCall-ID: "+id+"\r\nContent-Length: 2\r\n\r\n"+itoa(i)+"!"))
+	}
+	rt.Quiesce()
+	rt.Assert(len(h.got) == before+K, "burst: every datagram is delivered exactly once")
+	if len(h.got) == before+K {
+		for i := 0; i < K; i++ {
+			cid, _ := h.got[before+i].Message.GetCallID()
+			rt.Assert(cid == ids[i] && string(h.got[before+i].Message.body) == itoa(i)+"!", "burst: each delivered message is its own datagram")
+			rt.Assert(h.got[before+i].PeerAddr == "10.0.2."+itoa(i+1), "burst: each delivered message carries its own source address")
+		}
+	}
+	rt.Reach("end")
+}
